@@ -119,6 +119,23 @@ void setup_world(const Json::Value& scn, const std::string& tag) {
       g.access_faults.push_back(af);
     }
   }
+  auto errno_of = [](const std::string& n) {
+    return n == "EBUSY" ? EBUSY : n == "EINTR" ? EINTR : n == "ENOSPC" ? ENOSPC : n == "EIO" ? EIO : n == "EACCES" ? EACCES
+        : n == "ENODEV" ? ENODEV : n == "EINVAL" ? EINVAL : n == "ENOTSUP" ? ENOTSUP : n == "EAGAIN" ? EAGAIN : EIO;
+  };
+  if (scn.isMember("write_faults")) {
+    for (const auto& f : scn["write_faults"]) {
+      Sim::WriteFault wf;
+      wf.file = f["file"].asString();
+      wf.err = errno_of(f.get("errno", "EIO").asString());
+      wf.remaining = f.get("count", -1).asInt();
+      wf.shortw = f.get("short", false).asBool();
+      g.write_faults.push_back(wf);
+    }
+  }
+  if (scn.isMember("xattr_get_errno")) {
+    g.xattr_get_errno = errno_of(scn["xattr_get_errno"].asString());
+  }
   g.nticks = scn["ticks"].size();
 }
 
